@@ -25,6 +25,26 @@ CHECKS.update({
          "getHeaderBytes/getDataByteLength are swept for all 14 formats over every size 0..70000 and limit-70000..limit+64 plus lane patterns (thorough: EVERY size 0..16777215/w+64, 1.4e8 calls) against the reference header; real items are built by the factories at every 1|2|3-length-byte boundary and at limit-1, limit, limit+1 for all 14 formats (constructible iff n*w<=16777215, header exact, decoded count equal); the decoder reads back every payload length 0..1024, 65280..65792 (thorough 0..70000) and 125 lane lengths in every admissible length form.",
          "Decoder-side sweep is complete to 70000 only (needs real payloads); lists of 16777215 children only in thorough.", "5/C13"),
 })
+CHECKS.update({
+ "C04": ("bounded-exhaustive print->parse exploration of the real printer+parser over headers x names x template trees x strings x numbers; fixed-point check on all accepted token soups",
+         "All 128x256 stream/function codes x 3 wait-bit states x 3 directions, every 1- and 2-rune name over a 40-rune alphabet that satisfies an independently stated name predicate, every template tree of the scope (values of all formats, variables in every item kind, four ASCII bound forms, list variables, nested ellipses), every 1- and 2-character string over ASCII 0..127 and 3-character strings over 12 hard characters, boundary numbers and F4/F8 exponent sweeps are built with the real factories, printed (and the print compared with an independent printer), parsed back and compared in every observer and in bytes once completed; every accepted text of the token-soup space is checked to be a fixed point.",
+         "Variable names avoid the 16 words the text lexer reserves; ellipses are named ...[k] in order of appearance (what SML can express).", "5/C04"),
+ "C05": ("exhaustive enumeration of a finite literal grammar x 14 item types x positions on the real parser vs. math/big denotations",
+         "Signs x 8 base forms x 34 magnitudes, signs x 22 mantissas x 17 exponents, T/F/t/f, quoted strings (all 1- and 2-character printable strings, backslash triples, non-ASCII), character codes 0..200 in 4 bases, variables, in first/middle/last/single position of all 14 item types and in lower-case skeletons; the expectation (exact value / must be an error / either for forms the documented grammar leaves open) is computed with math/big independently of strconv; the parsed item's String() and ToBytes() must denote exactly that value.",
+         "either-cells fixed in DESIGN C05 (+n in unsigned, -0, leading zeros, '5.', hex in floats, half-ulp above MaxFloat).", "5/C05"),
+ "C06": ("bounded-exhaustive hostile-text enumeration on the real parser in rlimited worker subprocesses (death/hang detection)",
+         "All fragment sequences up to 4 (5) over a 40-fragment SML/hostile vocabulary, 10 lexer-state prefixes x every byte string up to 2 bytes x 3 suffixes (thorough: all 3-byte strings in 4 states), 12 magnitudes in 26 numeric slots (pairs), nesting depths to 1000 (2000), every Unicode space/odd byte in 17 positions, and 3-message texts are parsed in worker subprocesses with RLIMIT_AS 4 GiB and a 120 s watchdog; a dead or hung worker is a violation after 5 confirming re-executions; oracle: normal return, errors => no messages, every diagnostic formatted and positioned inside the input, accepted messages are fixed points, k messages in => k out in order.",
+         "Inputs longer than the bounds (multi-megabyte nesting) are not explored.", "5/C06"),
+ "C08": ("bounded-exhaustive metamorphic layout exploration (deviation-bounded) on the real parser with token-wise diagnostic tracking",
+         "446 base token sequences (printed messages covering every token kind and every single-token deletion/duplication of them): every gap x 13 separators (bound 1; thorough also all pairs of gaps), uniform layouts, a comment from a 268-text alphabet containing every possible final byte appended to every line, and keyword / number-prefix case variants (all-lower, all-upper, each token alone); messages must be identical and every diagnostic must keep its text and move to the new line/column of the same token.",
+         "Whitespace inside a size declaration [a..b] is not varied (one token).", "5/C08"),
+ "C15": ("exhaustive small-number enumeration of size declarations x item types x counts on the real parser and ASCII variable fill",
+         "4 declaration forms x 14 item types x (lower, upper, actual) in {0..4}^3 ({0..6}^3 thorough) x 2 element renderings, huge/overflowing bounds, and for ASCII variables 4 forms x bounds incl. inverted x fill strings of every length 0..6 (through the parser and through the factory): accepted iff within bounds, error positioned at the declaration, bounds kept (FillInStringLength), printed back, re-parsed and enforced on fill.",
+         "", "5/C15"),
+ "C19": ("bounded-exhaustive enumeration of concatenations of accepted texts on the real parser (compositional oracle)",
+         "All ordered pairs over ~110 accepted texts (every final-token form, with/without direction, ellipses with/without numbers, printed templates that reuse the same variable names) x 7 separators, every accepted token soup x 5 context texts in both orders, and triples over a subset: the concatenation must be accepted and return exactly the messages of the parts (deep equality incl. Variables, so ellipsis renumbering is observed) and their warnings shifted by the join offset.",
+         "", "5/C19"),
+})
 NA = {}
 hooks_commits = subprocess.run(["git", "-C", "/repo", "log", "--format=%H", "--grep=^verif hook"], capture_output=True, text=True).stdout.split()
 m = {
